@@ -41,6 +41,7 @@ fn main() {
                 stack: num("stack", 0) as usize,
                 seed: num("seed", 1),
                 timeout_ms: num("timeout-ms", 5000),
+                op_sleep_us: num("op-sleep-us", 0),
             };
             match steer::run(&kv["in"], &kv["out"], opts) {
                 Ok(c) => c,
